@@ -14,7 +14,12 @@
 (***************************************************************************)
 EXTENDS Forest, Json
 
-CONSTANTS MaxN, MaxAdds, MaxStack, MaxUnd, Acts
+CONSTANTS MaxN, MaxAdds, MaxStack, MaxUnd, Acts,
+          \* wide configurations (MinN < 99): every (n, live, held) with MinN <= n < MaxN, at most
+          \* InitDead dead slots and at most InitHeld held leaves is an initial state; one block from
+          \* each (deleting at most one leaf or the live leaves of one aligned subtree, remembering at
+          \* most one addition) and its undo
+          MinN, InitDead, InitHeld
 
 VARIABLES n, live, held, stack, und, hist
 
@@ -36,26 +41,59 @@ Emit(step, expect) ==
 \* ascending slot order, each with its position, and the canonical proof
 Holding(x, lv, hd) == [held |-> AscSeq(hd), cp |-> JProof(CanonProof(x, lv, AscSeq(hd)))]
 
-Init == n = 0 /\ live = {} /\ held = {} /\ stack = <<>> /\ und = 0 /\ hist = <<>>
+\* one block of a client: the step record (what the replay harness feeds to
+\* the real code and what the client must hold afterwards)
+BlockStepAt(x, lv, hd, ord, k, Rem) ==
+  LET D    == {ord[i] : i \in 1..Len(ord)}
+      x2   == x + k
+      lv2  == (lv \ D) \cup (x..(x + k - 1))
+      hd2  == (hd \ D) \cup {x + i : i \in Rem}
+      hold == Holding(x2, lv2, hd2)
+  IN  [ a |-> "block", d |-> ord, k |-> k, rem |-> AscSeq(Rem),
+        pf   |-> JProof(CanonProof(x, lv, ord)),
+        pre  |-> Roots(x, lv), post |-> Roots(x2, lv2),
+        upd  |-> JUpd(UpdateDataRef(x, lv, D, k)),
+        held |-> hold.held, cp |-> hold.cp ]
+
+Wide == MinN < 99
+
+\* the history that builds (x, lv, hd) in two blocks: append x leaves remembering hd
+\* and everything that is going to be deleted, then delete the dead ones
+InitHist(x, lv, hd) ==
+  LET dead == (0..(x - 1)) \ lv IN
+  (IF x = 0 THEN <<>> ELSE <<BlockStepAt(0, {}, {}, <<>>, x, hd)>>)
+    \o (IF dead = {} THEN <<>> ELSE <<BlockStepAt(x, 0..(x - 1), hd, AscSeq(dead), 0, {})>>)
+
+Init == /\ stack = <<>> /\ und = 0
+        /\ IF ~Wide
+           THEN n = 0 /\ live = {} /\ held = {} /\ hist = <<>>
+           ELSE /\ n \in MinN..(MaxN - 1)
+                /\ live \in {(0..(n - 1)) \ S : S \in {T \in SUBSET (0..(n - 1)) : Cardinality(T) <= InitDead}}
+                /\ held \in {T \in SUBSET live : Cardinality(T) <= InitHeld}
+                /\ hist = InitHist(n, live, held)
+
+\* the slots of the aligned subtrees of a forest of x leaves
+Aligned(x) == UNION {{(i * (2^h))..(i * (2^h) + 2^h - 1) : i \in 0..(x \div (2^h))} : h \in 1..TreeRows(x)}
+RemChoices(k) == IF ~Wide THEN SUBSET (0..(k-1)) ELSE {R \in SUBSET (0..(k-1)) : Cardinality(R) <= 1}
+DelChoices ==
+  IF ~Wide THEN SUBSET live
+  ELSE {D \in SUBSET live : Cardinality(D) <= 1}
+         \cup {A \cap live : A \in {B \in Aligned(n) : B \subseteq 0..(n - 1)}}
 
 Push(rec) == IF MaxStack = 0 THEN <<>>
              ELSE SubSeq(<<rec>> \o stack, 1, IF Len(stack) + 1 > MaxStack THEN MaxStack ELSE Len(stack) + 1)
 
 Block ==
   /\ "block" \in Acts
-  /\ \E D \in SUBSET live, k \in 0..MaxAdds :
+  /\ (IF Wide THEN stack = <<>> /\ und = 0 ELSE TRUE)   \* wide: one block from every initial state, then its undo
+  /\ \E D \in DelChoices, k \in 0..MaxAdds :
        /\ n + k <= MaxN
-       /\ \E Rem \in SUBSET (0..(k-1)) :
+       /\ \E Rem \in RemChoices(k) :
             LET n2  == n + k
                 lv2 == (live \ D) \cup (n..(n + k - 1))
                 hd2 == (held \ D) \cup {n + i : i \in Rem}
                 ord == AscSeq(D)
-                hold == Holding(n2, lv2, hd2)
-                step == [ a |-> "block", d |-> ord, k |-> k, rem |-> AscSeq(Rem),
-                          pf   |-> JProof(CanonProof(n, live, ord)),
-                          pre  |-> Roots(n, live), post |-> Roots(n2, lv2),
-                          upd  |-> JUpd(UpdateDataRef(n, live, D, k)),
-                          held |-> hold.held, cp |-> hold.cp ]
+                step == BlockStepAt(n, live, held, ord, k, Rem)
             IN  /\ n' = n2 /\ live' = lv2 /\ held' = hd2
                 /\ stack' = Push([n |-> n, live |-> live])
                 /\ und' = und
